@@ -225,13 +225,24 @@ pub fn worker_main(spec: &PropSpec, thorough: bool, seed: u64, shard: u64, nshar
 		}
 	}
 	let mut i = 0u64;
+	let mut last_ckpt = Instant::now();
 	while i < ncases && ctx.time_left() {
 		let case_seed = mix(&[seed, shard, i, fnv(spec.id.as_bytes())]);
 		ctx.case(case_seed, spec.run_case);
 		i += 1;
+		// checkpoint what was observed so far: a worker killed by the watchdog (hang inside the
+		// library) or by a crash still reports the cases it completed
+		if i % 64 == 0 && last_ckpt.elapsed() > Duration::from_secs(2) {
+			write_shard(&dir, shard, &ctx);
+			last_ckpt = Instant::now();
+		}
 	}
 	ctx.mark_case(0);
-	// write results
+	write_shard(&dir, shard, &ctx);
+	0
+}
+
+fn write_shard(dir: &std::path::Path, shard: u64, ctx: &Ctx) {
 	let out = json!({
 		"shard": shard,
 		"evaluations": ctx.evaluations,
@@ -241,14 +252,13 @@ pub fn worker_main(spec: &PropSpec, thorough: bool, seed: u64, shard: u64, nshar
 		"violations": ctx.violations.iter().map(|v| json!({"signature": v.signature, "case_seed": v.case_seed.to_string(), "detail": v.detail})).collect::<Vec<_>>(),
 	});
 	let tmp = dir.join(format!("shard-{shard}.json.tmp"));
-	std::fs::write(&tmp, serde_json::to_vec(&out).unwrap()).unwrap();
+	let _ = std::fs::write(&tmp, serde_json::to_vec(&out).unwrap());
 	let mut hb = Vec::with_capacity(ctx.distinct.len() * 8);
 	for h in &ctx.distinct {
 		hb.extend_from_slice(&h.to_le_bytes());
 	}
-	std::fs::write(dir.join(format!("shard-{shard}.hashes")), hb).unwrap();
-	std::fs::rename(&tmp, dir.join(format!("shard-{shard}.json"))).unwrap();
-	0
+	let _ = std::fs::write(dir.join(format!("shard-{shard}.hashes")), hb);
+	let _ = std::fs::rename(&tmp, dir.join(format!("shard-{shard}.json")));
 }
 
 fn proc_cpu_secs(pid: u32) -> Option<f64> {
@@ -337,7 +347,7 @@ pub fn parent_main(spec: &PropSpec, thorough: bool, seed: u64) -> i32 {
 			match child.try_wait() {
 				Ok(Some(status)) => {
 					done.push(*shard);
-					if !status.success() || !dir.join(format!("shard-{shard}.json")).exists() {
+					if !status.success() {
 						use std::os::unix::process::ExitStatusExt;
 						let how = match status.signal() {
 							Some(sig) => format!("signal {sig}"),
